@@ -12,6 +12,8 @@
 #include <vector>
 #include <string>
 #include <algorithm>
+#include <new>
+#include <cstring>
 #include "common/harness.h"
 
 namespace c19 { void sched_point(const char* what); bool spurious_failure(); }
@@ -141,12 +143,22 @@ bool spurious_failure() {
 }
 }  // namespace c19
 
+// A cache object constructed in storage that is not zero-filled (what a stack slot or a reused heap block is): whatever the
+// constructor does not initialise is garbage, as it may be for any non-static cache object.
+template <typename C>
+struct InDirtyStorage {
+  alignas(64) unsigned char raw[sizeof(C)];
+  C* c;
+  InDirtyStorage() { std::memset(raw, 0xA5, sizeof raw); c = new (raw) C(); }
+  ~InDirtyStorage() { c->~C(); }
+  C& get() { return *c; }
+};
 struct Op { bool insert; int id; bool ok; int got; };
 struct Program { std::vector<Op> ops; };
 
 template <unsigned N>
 static void run_concurrent(std::vector<Program>& progs, int prefill, c19::Sched& sc, std::vector<int>& drained) {
-  squids::detail::cache<Val, N> cache;
+  InDirtyStorage<squids::detail::cache<Val, N>> holder; auto& cache = holder.get();
   for (int k = 0; k < prefill; k++) cache.insert(Val(1000 + k));  // single-threaded, scheduler inactive
   int nt = (int)progs.size();
   sc.nthreads = nt; sc.done.assign(nt, false); sc.in_op.assign(nt, false); sc.preempted_inside.assign(nt, false);
@@ -178,7 +190,7 @@ static void run_concurrent(std::vector<Program>& progs, int prefill, c19::Sched&
 
 template <unsigned N>
 static void run_pool(std::vector<Op>& ops, int prefill, c19::Pool& P, std::vector<int>& drained) {
-  squids::detail::cache<Val, N> cache;
+  InDirtyStorage<squids::detail::cache<Val, N>> holder; auto& cache = holder.get();
   for (int k = 0; k < prefill; k++) cache.insert(Val(1000 + k));
   int n = (int)ops.size();
   P.n = n; P.started.assign(n, 0); P.done.assign(n, 0); P.parked.assign(n, 0); P.points.assign(n, 0); P.remaining.assign(n, 0);
@@ -248,7 +260,7 @@ static void run_pool_case(ByteSource& s, CaseInfo& ci) {
 
 template <class Cache, unsigned N>
 static void run_sequential(ByteSource& s, CaseInfo& ci, const char* cfg) {
-  Cache cache;
+  InDirtyStorage<Cache> holder; Cache& cache = holder.get();
   std::vector<int> model;  // LIFO
   int next_id = 1; std::string log;
   int n = 1 + (int)s.choose(24);
